@@ -336,3 +336,401 @@ func ruleQuiesceActivity(e *Engine, r *Report) {
 	}
 	r.floor("GD-quiesce-activity", n, 2)
 }
+
+// ---------------------------------------------------------------------------
+// Rules added after the seventh round of independent seeded changes.
+
+// alwaysFollowedBy: on every path from site to a success exit of its
+// function an instruction satisfying pred is passed; failing that, the same
+// holds after every call site of the function (up to depth).
+func (e *Engine) alwaysFollowedBy(site ssa.Instruction, pred func(ssa.Instruction) bool, depth int) (bool, []string) {
+	fn := site.Parent()
+	res := e.findPath(fn, site, func(in ssa.Instruction) bool { return e.isSuccessReturn(in) }, pred, nil)
+	if !res.Found {
+		return true, nil
+	}
+	if depth == 0 {
+		return false, res.Trace(e)
+	}
+	callers := e.CallerSites(fn)
+	if len(callers) == 0 {
+		return false, res.Trace(e)
+	}
+	for _, cs := range callers {
+		if _, isGo := cs.(*ssa.Go); isGo {
+			return false, []string{"spawned by go at " + e.ipos(cs)}
+		}
+		if !e.IsLive(cs.Parent()) {
+			continue
+		}
+		if ok, w := e.alwaysFollowedBy(cs.(ssa.Instruction), pred, depth-1); !ok {
+			return false, append([]string{fname(cs.Parent()) + " at " + e.ipos(cs)}, w...)
+		}
+	}
+	return true, nil
+}
+
+// ruleResponseTypes (C03, C06): Peer.Handle drops a message from a sender
+// that is not a member only when the message is a response type; the two
+// response types whose handlers trust the sender - a granted vote is
+// tallied, a ReadIndexResp releases reads at the index it carries - must be
+// classified as responses.
+func ruleResponseTypes(e *Engine, r *Report, must ...string) {
+	fn := r.need("internal/raft.isResponseMessageType")
+	mt := e.Named("raftpb", "MessageType")
+	if fn == nil || mt == nil || len(fn.Params) == 0 {
+		return
+	}
+	subj := func(v ssa.Value) bool { return stripConv(v) == ssa.Value(fn.Params[0]) }
+	set := e.enumCasesReturning(fn, mt, e.pkgTypes("raftpb"), subj, 0, true)
+	for _, k := range must {
+		why := map[string]string{
+			"RequestVoteResp": "a vote granted by a replica that is not (or no longer) a member is tallied towards the election quorum: two leaders in one term",
+			"ReadIndexResp":   "a read index supplied by a replica that is not a member releases pending reads",
+			"ReplicateResp":   "an acknowledgement from a non-member reaches the leader's progress tracking",
+			"HeartbeatResp":   "a heartbeat response from a non-member reaches the leader's read confirmation",
+		}[k]
+		r.check(set[k], "TBL-response-types", "isResponseMessageType classifies "+k+" as a response", e.pos(fn.Pos()),
+			"responses of this type from unknown senders are dropped by Peer.Handle", k+" is no longer classified as a response type, so Peer.Handle lets it through from a sender that is in none of the member maps: "+why)
+	}
+	r.floor("TBL-response-types", len(set), 4)
+}
+
+// ruleRawMkdir (C04, C10, C16): directories that hold replicated state are
+// created through fileutil.Mkdir/MkdirAll, which fsync the parent directory;
+// the storage, snapshot and transport code never calls the file system's own
+// MkdirAll (whose new directory entry is not durable).
+func ruleRawMkdir(e *Engine, r *Report) {
+	scope := map[string]bool{}
+	for _, p := range []string{"internal/tan", "internal/logdb", "internal/logdb/kv/pebble", "internal/logdb/kv", "internal/server", "internal/rsm", "internal/transport", "dragonboat", "tools"} {
+		if pk := e.pkgTypes(p); pk != nil {
+			scope[pk.Path()] = true
+		}
+	}
+	fu := e.pkgTypes("internal/fileutil")
+	control, n := 0, 0
+	for _, fn := range e.ScopeFuncs() {
+		pk := fnPkg(fn)
+		if pk == nil {
+			continue
+		}
+		forEachCall(fn, func(s ssa.CallInstruction) {
+			if !isIfaceInvoke(s, "MkdirAll", "Rename", "Create") && !isIfaceInvoke(s, "Mkdir", "Rename", "Create") {
+				return
+			}
+			if pk == fu {
+				control++
+				return
+			}
+			if !scope[pk.Path()] || !e.IsLive(outermostFn(fn)) {
+				return
+			}
+			n++
+			r.bad("WMC-raw-mkdir", "file system MkdirAll called in "+fname(fn), e.ipos(s),
+				"a directory of the storage/snapshot layout is created with the file system's own MkdirAll instead of fileutil.Mkdir/MkdirAll: the new directory's entry in its parent is never fsynced, so everything later written and fsynced inside it can vanish with a power loss")
+		})
+	}
+	r.check(control >= 1, "WMC-raw-mkdir", "positive control: fileutil itself calls the file system's MkdirAll", "-", "the rule recognises the call it forbids elsewhere ("+itoa(control)+" sites)", "the forbidden call is no longer recognised (vfs interface changed?)")
+	if n == 0 {
+		r.ok("WMC-raw-mkdir", "no raw MkdirAll in the storage, snapshot and transport packages", "-", "all directory creation goes through the fsyncing helpers")
+	}
+}
+
+// ruleTanSwitchOrder (C04, C10): when Tan rotates its log, the index of the
+// log being completed is saved before the new log is registered in the
+// manifest (on reopen at most one live log may lack an index file).
+func ruleTanSwitchOrder(e *Engine, r *Report) {
+	sw := r.need("(*internal/tan.db).switchToNewLog")
+	cn := r.need("(*internal/tan.db).createNewLog")
+	save := r.need("(*internal/tan.nodeStates).save")
+	if sw == nil || cn == nil || save == nil {
+		return
+	}
+	isSave := e.throughHelpers(func(s ssa.CallInstruction) bool { return e.CallsTo(s, save) })
+	n := 0
+	for _, s := range e.SitesIn(sw, cn) {
+		n++
+		ok, w := e.alwaysPrecededBy(s.(ssa.Instruction), isSave, 0)
+		r.check(ok, "MPT-tan-newlog-order", "log rotation saves the completed log's index before creating the new log", e.ipos(s),
+			"at most the newest log lacks an index file at any crash point", "the new log can be registered in the manifest before the index of the completed log is saved: a crash in between leaves two live logs without index and the db refuses to open", w...)
+	}
+	r.floor("MPT-tan-switch-sites", n, 1)
+}
+
+// ruleSnapshotDeleteOlder (C09, C16): saving a snapshot record removes only
+// records of older snapshots.
+func ruleSnapshotDeleteOlder(e *Engine, r *Report) {
+	fn := r.need("(*internal/logdb.db).saveSnapshot")
+	ssIdx := r.needField("raftpb", "Snapshot", "Index")
+	if fn == nil || ssIdx == nil {
+		return
+	}
+	n := 0
+	e.forEachInstrRegion(fn, 1, func(in ssa.Instruction) {
+		c, ok := in.(ssa.CallInstruction)
+		if !ok || !isIfaceInvoke(c, "Delete", "Put") {
+			return
+		}
+		n++
+		r.guard("GD-snapshot-delete-older", "snapshot record deleted in "+fname(in.Parent())+" #"+itoa(n), in,
+			reqCmp("the saved snapshot's index > the deleted record's index", ">", fieldV(ssIdx), fieldV(ssIdx)))
+	})
+	r.floor("GD-snapshot-delete-older", n, 1)
+}
+
+// ruleTanStateCache (C09, C03): every record appended to a Tan log is
+// reflected in the in-memory view the next write and read consult: the
+// index and the cached hard state are updated on the success path of every
+// append (the cached state decides whether a later identical state is
+// skipped).
+func ruleTanStateCache(e *Engine, r *Report) {
+	wrec := r.need("(*internal/tan.writer).writeRecord")
+	setState := r.need("(*internal/tan.nodeStates).setState")
+	updIdx := r.need("(*internal/tan.db).updateIndex")
+	dbT := e.Named("internal/tan", "db")
+	if wrec == nil || setState == nil || updIdx == nil || dbT == nil {
+		return
+	}
+	n := 0
+	for _, s := range e.CallerSites(wrec) {
+		fn := s.Parent()
+		if fn.Signature.Recv() == nil || !e.IsLive(fn) {
+			continue
+		}
+		if p, ok := fn.Signature.Recv().Type().(*types.Pointer); !ok || !types.Identical(p.Elem(), dbT) {
+			continue
+		}
+		n++
+		for _, st := range []struct {
+			f    *ssa.Function
+			what string
+		}{{setState, "the cached hard state"}, {updIdx, "the index"}} {
+			isStep := e.throughHelpers(func(c ssa.CallInstruction) bool { return e.CallsTo(c, st.f) })
+			ok, w := e.alwaysFollowedBy(s.(ssa.Instruction), isStep, 2)
+			r.check(ok, "PAIR-tan-append-view", "record appended in "+fname(fn)+" updates "+st.what, e.ipos(s),
+				"the in-memory view follows the log on every successful append", "a record can be appended to the Tan log without updating "+st.what+": the next write compares against / the next read returns a stale view (a later identical hard state is skipped although the log's last record differs)", w...)
+		}
+	}
+	r.floor("PAIR-tan-append-view", n, 1)
+}
+
+// ruleSessionSaveComplete (C05): the per-session record written into a
+// snapshot holds the whole response history: Session.save serialises the
+// session itself, or a copy whose construction copies every History entry
+// (no entry is filtered out on the way).
+func ruleSessionSaveComplete(e *Engine, r *Report) {
+	sv := r.need("(*internal/rsm.Session).save")
+	hist := r.needField("internal/rsm", "Session", "History")
+	if sv == nil || hist == nil {
+		return
+	}
+	n := 0
+	e.forEachInstrRegion(sv, 2, func(in ssa.Instruction) {
+		rg, ok := in.(*ssa.Range)
+		if !ok || !fieldV(hist)(rg.X) {
+			return
+		}
+		n++
+		header, body := rangeLoopBlocks(rg)
+		if header == nil {
+			r.undecided("TBL-session-save-complete", fname(in.Parent()), "range loop over Session.History not recognised")
+			return
+		}
+		// every iteration reaches a map update / append (the copy) before the next one
+		fn := in.Parent()
+		skip := false
+		for b := range body {
+			if b == header {
+				continue
+			}
+			// entry blocks of the body: successors of header
+			isEntry := false
+			for _, s := range header.Succs {
+				if s == b {
+					isEntry = true
+				}
+			}
+			if !isEntry || len(b.Instrs) == 0 {
+				continue
+			}
+			// search inside the loop: from the body entry back to the header without copying
+			seen := map[*ssa.BasicBlock]bool{}
+			var walk func(bb *ssa.BasicBlock) bool
+			walk = func(bb *ssa.BasicBlock) bool {
+				if bb == header {
+					return true
+				}
+				if seen[bb] || !body[bb] {
+					return false
+				}
+				seen[bb] = true
+				for _, x := range bb.Instrs {
+					switch y := x.(type) {
+					case *ssa.MapUpdate:
+						return false
+					case *ssa.Call:
+						if bi, ok := y.Call.Value.(*ssa.Builtin); ok && bi.Name() == "append" {
+							return false
+						}
+					}
+				}
+				for _, s := range bb.Succs {
+					if walk(s) {
+						return true
+					}
+				}
+				return false
+			}
+			if walk(b) {
+				skip = true
+			}
+		}
+		r.check(!skip, "TBL-session-save-complete", "copy of Session.History in "+fname(fn)+" keeps every entry", e.ipos(in),
+			"each iteration copies its entry", "the session record written into snapshots is built from a filtered copy of the response history: a replica restored from the snapshot no longer recognises a retry of a dropped entry and applies it a second time")
+	})
+	// the marshalled value is the session (or was built from it in this region)
+	isMarshal := stdCallV("encoding/json", "Marshal")
+	m := 0
+	forEachInstr(sv, func(in ssa.Instruction) {
+		c, ok := in.(*ssa.Call)
+		if !ok || !isMarshal(c) || len(c.Call.Args) == 0 || len(sv.Params) == 0 {
+			return
+		}
+		m++
+		recv := ssa.Value(sv.Params[0])
+		direct := e.dependsOn(c.Call.Args[0], func(v ssa.Value) bool { return v == recv }, 1)
+		r.check(direct, "TBL-session-save-complete", "Session.save serialises the session it is called on", e.ipos(in),
+			"the record derives from the receiver", "Session.save serialises something that is not derived from the session")
+	})
+	r.floor("TBL-session-save-complete", m, 1)
+}
+
+// ruleSessionBytesWritten (C05, C08): the session section of a snapshot
+// image is the session table the caller captured: the managed state machine's
+// Save hands its session argument unchanged to the routine that writes it,
+// for every kind of request (regular, exported, dummy).
+func ruleSessionBytesWritten(e *Engine, r *Report) {
+	saveM := r.needMethod("internal/rsm", "IManagedStateMachine", "Save")
+	if saveM == nil {
+		return
+	}
+	n := 0
+	for _, impl := range e.Implementations(saveM) {
+		if !e.IsLive(impl) || !inModule(fnPkg(impl)) {
+			continue
+		}
+		// the []byte parameter
+		var sess *ssa.Parameter
+		for _, p := range impl.Params {
+			if sl, ok := p.Type().Underlying().(*types.Slice); ok {
+				if b, ok := sl.Elem().Underlying().(*types.Basic); ok && b.Kind() == types.Byte {
+					sess = p
+				}
+			}
+		}
+		if sess == nil {
+			continue
+		}
+		forEachCall(impl, func(s ssa.CallInstruction) {
+			sc := s.Common().StaticCallee()
+			if sc == nil || fnPkg(sc) != fnPkg(impl) {
+				return
+			}
+			for i, a := range s.Common().Args {
+				sl, ok := a.Type().Underlying().(*types.Slice)
+				if !ok {
+					continue
+				}
+				if b, ok := sl.Elem().Underlying().(*types.Basic); !ok || b.Kind() != types.Byte {
+					continue
+				}
+				_ = i
+				n++
+				r.check(stripConv(a) == ssa.Value(sess), "DEP-session-bytes", "session bytes handed to "+fname(sc)+" in "+fname(impl), e.ipos(s),
+					"the captured session table is written as is", "the session section written into the snapshot image is not the captured session table ("+e.describeValue(a)+"): replicas rebuilt from such an image have lost their client sessions, so retries are rejected or applied again")
+			}
+		})
+	}
+	r.floor("DEP-session-bytes", n, 2)
+}
+
+// ruleApplyIndexAtomic (C07, C08): a change of replicated state (membership,
+// session table, user state machine) and the advance of the applied index
+// that labels it happen in one critical section of StateMachine.mu, so that a
+// snapshot taken by another worker never carries the change under the
+// previous index.
+func ruleApplyIndexAtomic(e *Engine, r *Report) {
+	mu := r.needField("internal/rsm", "StateMachine", "mu")
+	setApplied := r.need("(*internal/rsm.StateMachine).setApplied")
+	if mu == nil || setApplied == nil {
+		return
+	}
+	type mut struct {
+		fn   *ssa.Function
+		what string
+	}
+	var muts []mut
+	for _, c := range [][2]string{
+		{"(*internal/rsm.membership).handleConfigChange", "membership change"},
+		{"(*internal/rsm.SessionManager).RegisterClientID", "session registration"},
+		{"(*internal/rsm.SessionManager).UnregisterClientID", "session removal"},
+		{"(*internal/rsm.Session).addResponse", "session response record"},
+	} {
+		if f := r.need(c[0]); f != nil {
+			muts = append(muts, mut{f, c[1]})
+		}
+	}
+	isSet := func(in ssa.Instruction) bool {
+		c, ok := in.(*ssa.Call)
+		return ok && e.CallsTo(c, setApplied)
+	}
+	isUnlock := func(in ssa.Instruction) bool {
+		c, ok := in.(*ssa.Call)
+		if !ok {
+			return false
+		}
+		f, op := lockOp(c)
+		return f == mu && (op == "Unlock" || op == "RUnlock")
+	}
+	smPkg := e.pkgTypes("internal/rsm")
+	n := 0
+	for _, fn := range e.ScopeFuncs() {
+		if fnPkg(fn) != smPkg || !e.IsLive(outermostFn(fn)) {
+			continue
+		}
+		if rv := outermostFn(fn).Signature.Recv(); rv == nil || !hasSuffix(recvTypeName(rv.Type()), "rsm.StateMachine") {
+			continue
+		}
+		for _, m := range muts {
+			for _, s := range e.SitesIn(fn, m.fn) {
+				n++
+				site := s.(ssa.Instruction)
+				key := m.what + " in " + fname(fn)
+				r.requireLock("PAIR-apply-index-atomic", key+" holds StateMachine.mu", site, mu, 2, "StateMachine.mu")
+				// a direct unlock before the index advance
+				res := e.findPath(fn, site, isUnlock, isSet, nil)
+				// the index advance happens before this activation ends
+				var dSet, dUnlock *ssa.Defer
+				forEachInstr(fn, func(in ssa.Instruction) {
+					d, ok := in.(*ssa.Defer)
+					if !ok {
+						return
+					}
+					if e.CallsTo(d, setApplied) {
+						dSet = d
+					}
+					if f, op := lockOp(d); f == mu && op == "Unlock" {
+						dUnlock = d
+					}
+				})
+				direct := !e.findPath(fn, site, isReturn, isSet, nil).Found
+				deferred := dSet != nil && dominatesInstr(dSet, site) && (dUnlock == nil || dominatesInstr(dUnlock, dSet))
+				r.check(!res.Found && (direct || deferred), "PAIR-apply-index-atomic", key+" and setApplied share one critical section", e.ipos(site),
+					"the applied index advances before StateMachine.mu is released", "the "+m.what+" becomes visible under StateMachine.mu but the applied index that labels it is advanced later, outside that critical section: a snapshot or stream prepared in between carries the change under the previous index, and a replica restored from it applies the entry a second time / reports a different membership at the same index", res.Trace(e)...)
+			}
+		}
+	}
+	r.floor("PAIR-apply-index-atomic", n, 3)
+}
+
+func hasSuffix(s, suf string) bool { return len(s) >= len(suf) && s[len(s)-len(suf):] == suf }
